@@ -186,7 +186,7 @@ def _probe_enums():
     return consts
 
 
-C_CONSTANTS = _probe_enums()
+C_CONSTANTS = _probe_enums      # evaluated lazily when a C function of this file is translated
 
 TAG = {'VOID': 0, 'INT8': 2, 'UINT8': 3, 'INT16': 4, 'UINT16': 5, 'INT32': 6, 'UINT32': 7, 'INT64': 8, 'UINT64': 9}
 
